@@ -243,14 +243,157 @@ def fkey(f):
     return '%s|%s|%s' % (f['q'], f.get('sig', ''), file[i + 1:] if i >= 0 else os.path.basename(file))
 
 
+PURE_CALL = re.compile(r'^(operator[&|^~!=<>+\-*/%]+|get[A-Z_]\w*|is[A-Z_]\w*|has[A-Z_]\w*|size|operator\[\]|min|max|static_cast|signExtend2sCompl|unsigned32ToSigned2sCompl|Log2|maskLog2|alignSize|rv[ic]|rvrd|rvrs[12]|rvcrs|reg[A-Z]\w*)$')
+
+
+def _written_things(f):
+    """(ids of locals/params that are written after their declaration, show-strings of member / element lvalues written anywhere)"""
+    ids, paths = set(), set()
+    for x in walk(f['body']):
+        tgt = None
+        if x['k'] in ('Assign', 'CAssign'):
+            tgt = x['l']
+        elif x['k'] == 'Un' and ('++' in x.get('op', '') or '--' in x.get('op', '') or x.get('op') == '&'):
+            tgt = x['e']
+        if tgt is None:
+            continue
+        t = strip_all(tgt)
+        while t['k'] in ('Idx',) and is_node(t.get('b')):
+            paths.add(show(t))
+            t = strip_all(t['b'])
+        if t['k'] == 'Ref' and t.get('id') is not None:
+            ids.add(t['id'])
+        else:
+            paths.add(show(t))
+    return ids, paths
+
+
+def _pure_expr(n, written_ids, written_paths):
+    for x in walk(n):
+        k = x['k']
+        if k in ('Assign', 'CAssign', 'New', 'Throw', 'Lambda', 'OtherExpr', 'Delete'):
+            return False
+        if k == 'Un' and ('++' in x.get('op', '') or '--' in x.get('op', '')):
+            return False
+        if k == 'Call':
+            nm = x.get('name') or ''
+            if not (PURE_CALL.match(nm) or x.get('builtin') and nm.startswith('__builtin_') and 'mem' not in nm):
+                return False
+        if k == 'Ref' and x.get('id') is not None and x['id'] in written_ids:
+            return False
+        if k in ('Mem', 'Idx') and show(x) in written_paths:
+            return False
+    return True
+
+
+def _bool_core(n):
+    """X for an expression of the form (X != 0) / (bool)X used where only its truth value matters"""
+    m = strip_all(n)
+    if m['k'] == 'Bin' and m['op'] == '!=' and val(m['r']) == 0:
+        return m['l']
+    return n
+
+
+def _substitute(node, repl):
+    """in-place: every Ref whose id is in repl becomes a deep copy of the replacement expression; where the use is a condition, a replacement
+    `X != 0` is reduced to X (same truth value)"""
+    import copy
+    if not is_node(node):
+        return
+    if node['k'] in ('If', 'While', 'Cond', 'For', 'Do') and is_node(node.get('c')):
+        c = strip_all(node['c'])
+        if c['k'] == 'Ref' and c.get('id') in repl:
+            node['c'] = copy.deepcopy(_bool_core(repl[c['id']]))
+    if node['k'] == 'Un' and node.get('op') == '!' and is_node(node.get('e')):
+        c = strip_all(node['e'])
+        if c['k'] == 'Ref' and c.get('id') in repl:
+            node['e'] = copy.deepcopy(_bool_core(repl[c['id']]))
+    if node['k'] == 'Bin' and node.get('op') in ('&&', '||'):
+        for side in ('l', 'r'):
+            c = strip_all(node[side])
+            if c['k'] == 'Ref' and c.get('id') in repl:
+                node[side] = copy.deepcopy(_bool_core(repl[c['id']]))
+    for key, v in list(node.items()):
+        if is_node(v):
+            if v['k'] == 'Ref' and v.get('id') in repl:
+                node[key] = copy.deepcopy(repl[v['id']])
+            else:
+                _substitute(v, repl)
+        elif isinstance(v, list):
+            for i, x in enumerate(v):
+                if is_node(x):
+                    if x['k'] == 'Ref' and x.get('id') in repl:
+                        v[i] = copy.deepcopy(repl[x['id']])
+                    else:
+                        _substitute(x, repl)
+                elif isinstance(x, dict):
+                    for k2, v2 in list(x.items()):
+                        if is_node(v2):
+                            if v2['k'] == 'Ref' and v2.get('id') in repl:
+                                x[k2] = copy.deepcopy(repl[v2['id']])
+                            else:
+                                _substitute(v2, repl)
+
+
+def inline_new_temporaries(f, ent):
+    """A refactoring that names a sub-expression (const bool storeL1L2 = cond; ...) must not change any verdict.  Locals that do not exist on the pinned
+    tree, are initialised once with a side-effect-free expression over things the function never writes, and are never written again are substituted
+    back into their uses before any rule looks at the function.  (Loads from buffers, calls with effects and anything reassigned are left alone.)"""
+    known = set(name for kind, name in ent if kind == 'd')
+    written_ids, written_paths = _written_things(f)
+    changed = False
+    for _round in range(4):
+        repl = {}
+        for x in walk(f['body']):
+            if x['k'] != 'Decl':
+                continue
+            for d in x['d']:
+                if d.get('name') in known or 'init' not in d or d.get('id') in written_ids or d.get('static') or d.get('arrlen') is not None:
+                    continue
+                ty = d.get('ty') or ''
+                if '&' in ty and 'const' not in ty:
+                    continue
+                if _pure_expr(d['init'], written_ids, written_paths):
+                    repl[d['id']] = d['init']
+        if not repl:
+            break
+        changed = True
+        for x in walk(f['body']):
+            if x['k'] == 'Decl':
+                x['d'] = [d for d in x['d'] if d.get('id') not in repl]
+        _substitute(f['body'], repl)
+        for i in f.get('inits', []) or []:
+            if is_node(i.get('e')):
+                _substitute(i, repl)
+
+    def prune(n):
+        if not is_node(n):
+            return
+        if n['k'] == 'Compound':
+            n['s'] = [x for x in n['s'] if not (x['k'] == 'Decl' and not x['d'])]
+        for c in children(n):
+            prune(c)
+    if changed:
+        prune(f['body'])
+    return changed
+
+
 def canonicalise_locals(f, pinned, config=''):
     if f.get('_canon') or f.get('body') is None:
         return
     f['_canon'] = True
-    ent = pinned.get(config + '|' + fkey(f)) or pinned.get(fkey(f))
-    if not ent:
+    ent = pinned.get(config + '|' + fkey(f))
+    if ent is None:
+        ent = pinned.get(fkey(f))
+    if ent is None:
         return
     decls = local_decl_list(f)
+    if len(decls) > len(ent):
+        try:
+            if inline_new_temporaries(f, ent):
+                decls = local_decl_list(f)
+        except RecursionError:
+            pass
     if len(decls) != len(ent) or [k for k, _ in decls] != [e[0] for e in ent]:
         return        # the function changed shape: keep its own names (rules that need a role find it structurally or give up with exit 2)
     ren = {}
@@ -268,6 +411,100 @@ def canonicalise_locals(f, pinned, config=''):
             for x in walk(i['e']):
                 if x['k'] == 'Ref' and x.get('id') in ren:
                     x['n'] = ren[x['id']]
+
+
+def inline_new_helpers(F, pinned):
+    """A refactoring that extracts a pure expression into a new small helper (`static inline uint32_t col(a, b, c, d) { return T0[a] ^ ...; }`, a private
+    predicate member) must not change any verdict: functions that do not exist on the pinned tree and whose body is a single `return <side-effect-free
+    expression>;` are substituted back into their call sites (arguments must be simple, or the parameter used at most once)."""
+    import copy
+    known_q = F.__dict__.setdefault('_pinned_q', None)
+    if known_q is None:
+        known_q = set('|'.join(k.split('|')[1:-2]) for k in pinned if k.count('|') >= 3)
+        F._pinned_q = known_q
+    if not known_q:
+        return
+    helpers = {}
+    for q, fs in F._funcs.items():
+        if q in known_q:
+            continue
+        for f in fs:
+            b = f.get('body')
+            if b is None or '/src/' not in f.get('file', ''):
+                continue
+            st = b['s'] if b['k'] == 'Compound' else [b]
+            st = [x for x in st if x['k'] != 'Null']
+            if len(st) == 1 and st[0]['k'] == 'Return' and is_node(st[0].get('e')) and _pure_expr(st[0]['e'], set(), set()):
+                helpers[q] = f
+                break
+    if not helpers:
+        return
+
+    def simple(a):
+        a = strip_all(a)
+        return a['k'] in ('Ref', 'Int', 'Bool', 'Mem', 'This') or 'v' in a
+
+    def expand(node):
+        if not is_node(node):
+            return
+        for key, v in list(node.items()):
+            if is_node(v):
+                r = try_inline(v)
+                if r is not None:
+                    node[key] = r
+                    expand(node[key])
+                else:
+                    expand(v)
+            elif isinstance(v, list):
+                for i, x in enumerate(v):
+                    if is_node(x):
+                        r = try_inline(x)
+                        if r is not None:
+                            v[i] = r
+                            expand(v[i])
+                        else:
+                            expand(x)
+                    elif isinstance(x, dict):
+                        for k2, v2 in list(x.items()):
+                            if is_node(v2):
+                                r = try_inline(v2)
+                                if r is not None:
+                                    x[k2] = r
+                                    expand(x[k2])
+                                else:
+                                    expand(v2)
+
+    def try_inline(c):
+        if c['k'] != 'Call' or c.get('fn') not in helpers:
+            return None
+        h = helpers[c['fn']]
+        if is_node(c.get('this')) and strip_all(c['this'])['k'] != 'This':
+            return None
+        args = c.get('a', [])
+        if len(args) != len(h['params']):
+            return None
+        expr = copy.deepcopy(h['body']['s'][0]['e'] if h['body']['k'] == 'Compound' else h['body']['e'])
+        uses = {}
+        for x in walk(expr):
+            if x['k'] == 'Ref' and x.get('id') is not None:
+                uses[x['id']] = uses.get(x['id'], 0) + 1
+        repl = {}
+        for prm, a in zip(h['params'], args):
+            if uses.get(prm['id'], 0) > 1 and not simple(a):
+                return None
+            repl[prm['id']] = a
+        wrap = {'k': 'Cast', 'ck': 'NoOp', 'impl': True, 'ty': expr.get('ty'), 'e': expr, 'ln': c.get('ln')}
+        _substitute(wrap, repl)
+        return wrap['e']
+
+    for q, fs in F._funcs.items():
+        if q in helpers:
+            continue
+        for f in fs:
+            if f.get('body') is not None and not f.get('_helpers_inlined'):
+                f['_helpers_inlined'] = True
+                if any(x['k'] == 'Call' and x.get('fn') in helpers for x in walk(f['body'])):
+                    expand(f['body'])
 
 
 class Facts:
@@ -311,6 +548,7 @@ class Facts:
                 self._enums.setdefault(e['q'], e)
             for m in u['macros']:
                 self._macros.setdefault(m['name'], m)
+        inline_new_helpers(self, pinned)
 
     def func(self, q, unit=None):
         """The function with exactly this qualified name (incl. template args)."""
